@@ -1,7 +1,7 @@
 (* C07 property theorems. Statements only; proofs are `exact lemma`. Third-party compressors appear as universally
    quantified functions with their round-trip behaviour as premises. All theorems are for every input (no bound). *)
 From Coq Require Import ZArith List Bool.
-From OG Require Import C07.Model C07.ModelRows C07.ModelFile C07.ProofsFile C07.ProofsRows C07.ProofsBase C07.ProofsS8 C07.ProofsInt C07.ProofsBool C07.ProofsFloat C07.ProofsString C07.ProofsSeg.
+From OG Require Import C07.Model C07.ModelRows C07.ModelFile C07.ModelPreAgg C07.ProofsPreAgg C07.ProofsFile C07.ProofsRows C07.ProofsBase C07.ProofsS8 C07.ProofsInt C07.ProofsBool C07.ProofsFloat C07.ProofsString C07.ProofsSeg.
 Import ListNotations.
 Open Scope Z_scope.
 
@@ -252,3 +252,87 @@ Example C07_ex_frame :
   frame_applicable idc 1 [7; 8; 9] = true /\ frame_enc idc 1 [7; 8; 9] = [1; 0; 0; 0; 3; 7; 8; 9] /\
   frame_dec idd (firstn 7 (frame_enc idc 1 [7; 8; 9])) = None.
 Proof. vm_compute. repeat split. Qed.
+
+(* ---- stored statistics blocks (pre-aggregation) ----
+   The reader tells the layouts apart by the length of the block alone. Whatever layout a writer uses for a statistics
+   value - one-row, fixed, variable-length with any valid scale indices and flag byte, or the padded variable-length form -
+   if the layout is `applicable` (variable-length only when its length is neither the one-row length nor >= the fixed
+   size) the reader returns exactly the statistics, for every statistics value and every chunk-meta-compress-mode. *)
+Theorem C07_preagg_int_roundtrip : forall l s, stat_ok s = true -> pai_applicable l s = true ->
+  pai_dec (pai_enc_with l s) = Some (s, pad_of l).
+Proof. exact preagg_int_roundtrip. Qed.
+Print Assumptions C07_preagg_int_roundtrip.
+
+Theorem C07_preagg_float_roundtrip : forall l s, stat_ok s = true -> fl_applicable l s = true ->
+  fl_dec (fl_enc_with l s) = Some (s, pad_of l).
+Proof. exact preagg_float_roundtrip. Qed.
+Print Assumptions C07_preagg_float_roundtrip.
+
+(* the fixed layout is always applicable: encoding statistics never fails *)
+Theorem C07_preagg_encode_total : forall s, pai_applicable LFixed s = true /\ fl_applicable LFixed s = true.
+Proof. intros s. split; reflexivity. Qed.
+
+(* today's writers (one-row form for a single row; under mode "self" the variable-length form with the greedy scale,
+   padded when it is one-row long, kept only when the guard `keep` accepts its length, else the fixed form) pick an
+   applicable layout for EVERY statistics value in every mode, provided the guard keeps the variable-length form only
+   when it is STRICTLY shorter than the fixed size - including the boundary where both have the same length *)
+Theorem C07_preagg_int_writer : forall keep self s,
+  (forall n, keep n = true -> n < size_int) -> (s_cnt s = 1 -> one_row_stat s = true) ->
+  pai_applicable (int_layout_g keep self s) s = true.
+Proof. exact preagg_int_writer_ok. Qed.
+Print Assumptions C07_preagg_int_writer.
+
+Theorem C07_preagg_float_writer : forall zero keep self s,
+  (forall n, keep n = true -> n < size_float) -> (s_cnt s = 1 -> one_row_stat s = true) ->
+  fl_applicable_g zero (fl_layout_g zero keep self s) s = true.
+Proof. exact preagg_float_writer_ok. Qed.
+
+Theorem C07_preagg_int_marshal_roundtrip : forall self s, stat_ok s = true -> (s_cnt s = 1 -> one_row_stat s = true) ->
+  exists rest, pai_dec (int_marshal self s) = Some (s, rest).
+Proof. exact preagg_int_marshal_roundtrip. Qed.
+Print Assumptions C07_preagg_int_marshal_roundtrip.
+
+Theorem C07_preagg_float_marshal_roundtrip : forall self s, stat_ok s = true -> (s_cnt s = 1 -> one_row_stat s = true) ->
+  exists rest, fl_dec (fl_marshal self s) = Some (s, rest).
+Proof. exact preagg_float_marshal_roundtrip. Qed.
+Print Assumptions C07_preagg_float_marshal_roundtrip.
+
+(* the strictness of the guard is necessary: a writer that keeps the variable-length form also when it is exactly as
+   long as the fixed form (`<=`) stores, for these statistics, 48 bytes the reader takes for the fixed layout *)
+Definition pa_boundary_int : stat :=
+  mkStat 4611686018427387904 4611686018427387904 1600000000000000001 1600004398046511106 36028797018963968 2.
+Definition pa_boundary_float : stat :=    (* min 1.5, max 2.5 seen 7 ns BEFORE the min, 200 values *)
+  mkStat 4609434218613702656 4612811918334230528 1600000000000000001 1599999999999999994 4616189618054758400 200.
+Theorem C07_preagg_guard_must_be_strict :
+  stat_ok pa_boundary_int = true /\ len (int_vlc 0 0 pa_boundary_int) = size_int /\
+  (forall rest, pai_dec (int_marshal_g (fun n => n <=? size_int) true pa_boundary_int) <> Some (pa_boundary_int, rest)) /\
+  stat_ok pa_boundary_float = true /\ len (fl_vlc true 0 0 pa_boundary_float) = size_float /\
+  (forall rest, fl_dec (fl_marshal_g fl_zero_repaired (fun n => n <=? size_float) true pa_boundary_float) <> Some (pa_boundary_float, rest)).
+Proof.
+  split; [vm_compute; reflexivity|]. split; [vm_compute; reflexivity|].
+  split; [intros rest; vm_compute; intros H; inversion H|].
+  split; [vm_compute; reflexivity|]. split; [vm_compute; reflexivity|].
+  intros rest; vm_compute; intros H; inversion H.
+Qed.
+Print Assumptions C07_preagg_guard_must_be_strict.
+
+Theorem C07_preagg_bool_roundtrip : forall s rest, bool_stat_ok s = true -> bool_pa_dec (bool_marshal s ++ rest) = Some (s, rest).
+Proof. exact preagg_bool_roundtrip. Qed.
+Theorem C07_preagg_string_roundtrip : forall c rest, 0 <= c < M64 -> str_pa_dec (str_marshal (cnt_stat c) ++ rest) = Some (cnt_stat c, rest).
+Proof. exact preagg_string_roundtrip. Qed.
+Theorem C07_preagg_time_roundtrip : forall c rest, 0 <= c < M32 -> time_pa_dec (time_marshal (cnt_stat c) ++ rest) = Some (cnt_stat c, rest).
+Proof. exact preagg_time_roundtrip. Qed.
+Print Assumptions C07_preagg_time_roundtrip.
+
+(* every layout has applicable statistics; the boundary statistics take the fixed layout under today's guard and decode *)
+Example C07_ex_preagg_layouts :
+  pai_applicable LOne (one_stat 7 1000) = true /\
+  int_layout_g (fun n => n <? size_int) true (mkStat 1 9 1000 3000 10 2) = LVlc true 1 1 /\
+  pai_applicable (LVlc true 1 1) (mkStat 1 9 1000 3000 10 2) = true /\
+  int_marshal true (mkStat 1 9 1000 3000 10 2) = [2; 18; 20; 2; 1; 1; 1; 2] /\
+  int_layout_g (fun n => n <? size_int) true pa_boundary_int = LFixed /\
+  fl_layout_g fl_zero_repaired (fun n => n <? size_float) true pa_boundary_float = LFixed /\
+  (exists k1 k2, int_layout_g (fun n => n <? size_int) true (mkStat 1 3 1600000000000000001 1600000000000000003 4 2) = LPad true k1 k2) /\
+  fl_layout_g fl_zero_repaired (fun n => n <? size_float) true (mkStat 0 0 1000 2000 0 2) = LVlc false 1 1 /\
+  fl_layout_g fl_zero_repaired (fun n => n <? size_float) true (mkStat M63 M63 1000 2000 0 2) = LVlc true 1 1.
+Proof. vm_compute. repeat split. eexists; eexists; reflexivity. Qed.
